@@ -399,6 +399,12 @@ def lookup {α : Type} (cfg : DiffCfg) (nameOf : α → Bytes) (xs : List α) (i
 
 def b2n (b : Bool) : Nat := if b then 1 else 0
 
+/-- `match o with | none => n | some y => f y` -/
+def optCase {α β : Type} (o : Option α) (n : β) (f : α → β) : β :=
+  match o with
+  | none => n
+  | some y => f y
+
 def sumNat (l : List Nat) : Nat := l.foldr (· + ·) 0
 
 /-- indexed map -/
@@ -415,12 +421,8 @@ def attDiff (cfg : DiffCfg) (x y : Att) : Nat :=
 
 /-- the two attribute loops (global attributes, or the attributes of one variable) -/
 def attsDiff (cfg : DiffCfg) (A B : List Att) : Nat :=
-  sumNat (imap (fun i x => match lookup cfg (·.name) B i x.name with
-                           | none => 1
-                           | some y => attDiff cfg x y) A 0) +
-  sumNat (imap (fun i y => match lookup cfg (·.name) A i y.name with
-                           | none => 1
-                           | some _ => 0) B 0)
+  sumNat (imap (fun i x => optCase (lookup cfg (·.name) B i x.name) 1 (fun y => attDiff cfg x y)) A 0) +
+  sumNat (imap (fun i y => optCase (lookup cfg (·.name) A i y.name) 1 (fun _ => 0)) B 0)
 
 /-- cdfdiff divides by the other file's attribute count -/
 def attsCrash (cfg : DiffCfg) (A B : List Att) : Bool :=
@@ -432,12 +434,9 @@ def dimLen (cfg : DiffCfg) (numrecs : Nat) (size : Nat) : Nat :=
 
 def dimsDiff (cfg : DiffCfg) (a b : LFile) : Nat :=
   if a.dims.length > 0 ∧ b.dims.length > 0 then
-    sumNat (imap (fun i d => match lookup cfg (·.name) b.dims i d.name with
-                             | none => 1
-                             | some e => b2n (dimLen cfg a.numrecs d.size ≠ dimLen cfg b.numrecs e.size)) a.dims 0) +
-    sumNat (imap (fun i e => match lookup cfg (·.name) a.dims i e.name with
-                             | none => 1
-                             | some _ => 0) b.dims 0)
+    sumNat (imap (fun i d => optCase (lookup cfg (·.name) b.dims i d.name) 1
+                               (fun e => b2n (dimLen cfg a.numrecs d.size ≠ dimLen cfg b.numrecs e.size))) a.dims 0) +
+    sumNat (imap (fun i e => optCase (lookup cfg (·.name) a.dims i e.name) 1 (fun _ => 0)) b.dims 0)
   else 0
 
 /-- the per-dimension loop of the variable metadata comparison -/
@@ -456,20 +455,17 @@ def varMetaDiff (cfg : DiffCfg) (na nb : Nat) (v w : LVar) : Nat :=
 /-- the variable metadata loops: (numHeadDIFF, numVarDIFF) -/
 def varsDiff (cfg : DiffCfg) (a b : LFile) : Nat × Nat :=
   if a.vars.length > 0 ∧ b.vars.length > 0 then
-    let l1 := imap (fun i v => match lookup cfg (·.name) b.vars i v.name with
-                               | none => (1, 1)
-                               | some w => (varMetaDiff cfg a.numrecs b.numrecs v w, 0)) a.vars 0
-    let l2 := imap (fun i w => match lookup cfg (·.name) a.vars i w.name with
-                               | none => (1, 1)
-                               | some _ => (0, 0)) b.vars 0
-    (sumNat (l1.map (·.1)) + sumNat (l2.map (·.1)), sumNat (l1.map (·.2)) + sumNat (l2.map (·.2)))
+    -- a variable without namesake counts once in numHeadDIFF and once in numVarDIFF
+    (sumNat (imap (fun i v => optCase (lookup cfg (·.name) b.vars i v.name) 1
+                                (fun w => varMetaDiff cfg a.numrecs b.numrecs v w)) a.vars 0) +
+     sumNat (imap (fun i w => optCase (lookup cfg (·.name) a.vars i w.name) 1 (fun _ => 0)) b.vars 0),
+     sumNat (imap (fun i v => optCase (lookup cfg (·.name) b.vars i v.name) 1 (fun _ => 0)) a.vars 0) +
+     sumNat (imap (fun i w => optCase (lookup cfg (·.name) a.vars i w.name) 1 (fun _ => 0)) b.vars 0))
   else (0, 0)
 
 def varsCrash (cfg : DiffCfg) (a b : LFile) : Bool :=
   a.vars.length > 0 && b.vars.length > 0 &&
-  (imap (fun i v => match lookup cfg (·.name) b.vars i v.name with
-                    | none => false
-                    | some w => attsCrash cfg v.atts w.atts) a.vars 0).any id
+  (imap (fun i v => optCase (lookup cfg (·.name) b.vars i v.name) false (fun w => attsCrash cfg v.atts w.atts)) a.vars 0).any id
 
 /-- are the records `0 .. n-1` of the two variables the same bytes -/
 def recsSame (v w : LVar) : Nat → Bool
